@@ -374,3 +374,59 @@ func vh_dial_cleanup() {
 	}
 	vAssert(d.dials == 1, "C17/dial/one-dial-per-attempt")
 }
+
+// ---- controlConn.close: after it returns, the control connection that is current is closed ----
+//
+// A reconnect running on the heartbeat goroutine may complete (store a fresh connection, close the old
+// one) at any moment UNTIL that goroutine has taken close()'s rendezvous send on quit; afterwards it
+// only exits. The environment completes such a reconnect at the state CAS of close(), the one point of
+// close() before the rendezvous.
+var (
+	vCtl        *controlConn
+	vCtlFresh   *Conn
+	vCtlSwapped bool
+)
+
+func vstubCtlCAS(addr *int32, old, new int32) bool {
+	if vCtl != nil && addr == &vCtl.state && !vCtlSwapped && vSentOn(vCtl.quit) == 0 && vBool("an_in_flight_reconnect_completes_now") {
+		vCtlSwapped = true
+		if prev := vCtl.getConn(); prev != nil {
+			prev.conn.Close() // setupConn closes the connection it replaces
+		}
+		vCtl.conn.Store(&connHost{conn: vCtlFresh, host: &HostInfo{hostId: "n"}})
+	}
+	if *addr == old {
+		*addr = new
+		return true
+	}
+	return false
+}
+
+func vCtlTracked() *Conn {
+	c := &Conn{conn: &vNetConn{}, calls: map[int]*callReq{}, errorHandler: vErrHandlerNop{}, logger: vNopLogger{}}
+	c.ctx = context.Background()
+	c.cancel = func() {}
+	return c
+}
+
+type vErrHandlerNop struct{}
+
+func (vErrHandlerNop) HandleError(conn *Conn, err error, closed bool) {}
+
+func vh_control_close() {
+	cc := &controlConn{session: &Session{logger: vNopLogger{}}, quit: make(chan struct{})}
+	vEnvChan(cc.quit) // the heartbeat goroutine receives
+	cur := vCtlTracked()
+	vCtlFresh = vCtlTracked()
+	cc.conn.Store(&connHost{conn: cur, host: &HostInfo{hostId: "o"}})
+	cc.state = controlConnStarted
+	if vBool("never_started") {
+		cc.state = controlConnStarting
+	}
+	vCtl, vCtlSwapped = cc, false
+	cc.close()
+	now := cc.getConn()
+	vAssert(now != nil && now.conn.closed, "C17/control/the-current-control-connection-is-closed-after-close")
+	vAssert(cur.closed, "C17/control/the-original-control-connection-is-closed-after-close")
+	vObserve("swapped", vCtlSwapped)
+}
